@@ -15,11 +15,78 @@ BASELINE = os.path.join(os.path.dirname(os.path.dirname(os.path.abspath(__file__
 MAX_ROUNDS = 4
 
 
-def load_baseline():
+def load_baseline(with_sigs=False):
     if not os.path.exists(BASELINE):
         return None
+    names, sigs = set(), {}
     with open(BASELINE) as f:
-        return {l.strip() for l in f if l.strip() and not l.startswith("#")}
+        for l in f:
+            l = l.rstrip("\n")
+            if not l.strip() or l.startswith("#"):
+                continue
+            n, _, s = l.partition("\t")
+            names.add(n)
+            if s:
+                sigs[n] = s
+    return (names, sigs) if with_sigs else names
+
+
+def _tyn(s):
+    """type spelling independent of std / alloc / core and of module-path prefixes that depend on the configuration"""
+    import re as _re
+    s = _re.sub(r"\b(std|alloc|core)::([a-z_]+::)*", "", s or "")
+    return s
+
+
+def _rename_text(x, old, new):
+    """replace the path prefix `old` by `new` in every string of a JSON fragment (callee paths, closure names, fn keys)"""
+    if isinstance(x, dict):
+        return {k: _rename_text(v, old, new) for k, v in x.items()}
+    if isinstance(x, list):
+        return [_rename_text(v, old, new) for v in x]
+    if isinstance(x, str) and old in x:
+        import re as _re
+        return _re.sub(r"(?<![A-Za-z0-9_])%s(?![A-Za-z0-9_])" % _re.escape(old), new, x)
+    return x
+
+
+def resolve_renames(world, base, sigs):
+    """a function of the confirmed tree that no longer exists, and exactly one new function with the same parent path and the
+    same signature: a rename.  The new function is presented under the old path everywhere (body key, callee paths, closure
+    names), so that rules anchored at the old name keep their anchor.  Returns {old: new}."""
+    current = {}
+    for c in world.crates.values():
+        for p, f in c.fns.items():
+            current[p] = (_tyn("%s -> %s" % (", ".join(f["inputs"]), f["output"])), c)
+    crates = {c.name for c in world.crates.values()}
+    missing = [n for n in sigs if n not in current and n.split("::")[0] in crates and n not in world.bodies]
+    fresh = [p for p in current if p not in base and p in world.bodies]
+    out = {}
+    for old in missing:
+        parent = old.rsplit("::", 1)[0]
+        cands = [p for p in fresh if p.rsplit("::", 1)[0] == parent and current[p][0] == _tyn(sigs[old]) and p not in out.values()]
+        if len(cands) == 1:
+            out[old] = cands[0]
+    for old, new in out.items():
+        for c in world.crates.values():
+            touched = False
+            for b in c.bodies:
+                s = None
+                if new in b.fn or any(new in str(bl["term"].get("callee", "")) for bl in b.blocks) or new in str(b.j["blocks"]):
+                    nj = _rename_text(b.j, new, old)
+                    b.__init__(nj, c)
+                    touched = True
+            if touched:
+                for k in ("fns",):
+                    if new in c.fns:
+                        f = dict(c.fns.pop(new))
+                        f["path"] = old
+                        c.fns[old] = f
+        world.bodies = {}
+        for c in world.crates.values():
+            for b in c.bodies:
+                world.bodies.setdefault(b.key, []).append(b)
+    return out
 
 
 def _remap(x, lmap, bmap, pmap):
@@ -114,10 +181,13 @@ def inline_into(world, body, helpers, counter):
 
 
 def apply(world):
-    base = load_baseline()
+    loaded = load_baseline(with_sigs=True)
     world.inlined = {}
-    if base is None:
+    world.renamed = {}
+    if loaded is None:
         return
+    base, sigs = loaded
+    world.renamed = resolve_renames(world, base, sigs)
     helpers = {}
     for key, bs in world.bodies.items():
         b = bs[0]
